@@ -158,6 +158,14 @@ def touching_pair(rng):
     cy = sum(v[1] for v in verts) / n
     k = rng.randint(3, min(6, n + 2))
     picks = sorted(rng.sample(range(n), min(k, n)))
+    if rng.random() < 0.35 and n >= 5:
+        # B is the polygon through a subset of the vertices of A (in order): every edge of B is a
+        # side of A or a chord between two of its vertices, possibly across a reflex notch
+        bverts = [verts[i] for i in picks]
+        if len(set(bverts)) >= 3 and O.polygon_is_simple(G.poly_curve(bverts)):
+            if O.shoelace(bverts) < 0:
+                bverts.reverse()
+            return G.poly_spec(bverts, "frac"), G.poly_spec(verts, "frac")
     bverts = []
     for i in picks:
         a, b = verts[i], verts[(i + 1) % n]
